@@ -341,7 +341,7 @@ def frag_targets(spec, e):
 
 S_SITES = ["top", "block", "if_accept", "if_reject", "else_if", "loop_body", "continuing",
            "for_body", "for_update", "while_body", "switch_case", "switch_default",
-           "switch_multi"]
+           "switch_multi", "if_false", "else_of_true", "if_const_expr_false", "while_false"]
 E_SITES = ["let_init", "var_init", "if_cond", "while_cond", "break_if", "for_init", "for_cond",
            "switch_sel", "call_arg", "return_expr", "nested_expr"]
 
@@ -357,6 +357,15 @@ def scaffold(site, E, S_, n):
         return "if (acc < -1.0) { } else { %s }" % S_
     if site == "else_if":
         return "if (acc < -1.0) { } else if (acc < 1e30) { %s }" % S_
+    # statically dead code is still a static use (WGSL has no reachability in "statically used")
+    if site == "if_false":
+        return "if (false) { %s }" % S_
+    if site == "else_of_true":
+        return "if (true) { acc = acc + 1.0; } else { { %s } }" % S_
+    if site == "if_const_expr_false":
+        return "if (1 > 2) { if (false) { %s } }" % S_
+    if site == "while_false":
+        return "while (false) { %s }" % S_
     if site == "loop_body":
         return "loop { %s break; }" % S_
     if site == "continuing":
